@@ -197,25 +197,30 @@ pub fn ingest_stress(args: &[String]) -> ! {
     let log = Arc::new(Mutex::new(Vec::<Value>::new()));
     let finished = Arc::new(AtomicU64::new(0));
     let errors = Arc::new(Mutex::new(Vec::<String>::new()));
+    let written = Arc::new(Mutex::new(std::collections::BTreeMap::<u64, u64>::new()));
     for _ in 0..compactors {
         let t = Arc::clone(&tree);
         let e = Arc::clone(&errors);
         std::thread::spawn(move || { if let Err(err) = t.compaction_thread() { e.lock().unwrap().push(format!("compaction thread: {err:?}").chars().take(300).collect()); } });
     }
     for g in 0..ingesters {
-        let (tree, seq, ts, log, finished, root) = (Arc::clone(&tree), Arc::clone(&seq), Arc::clone(&ts), Arc::clone(&log), Arc::clone(&finished), root.clone());
+        let (tree, seq, ts, log, finished, root, written) = (Arc::clone(&tree), Arc::clone(&seq), Arc::clone(&ts), Arc::clone(&log), Arc::clone(&finished), root.clone(), Arc::clone(&written));
         std::thread::spawn(move || {
             let mut x = 0x2545F4914F6CDD1Du64 ^ (g + 1);
             for i in 0..iters {
                 x ^= x << 13; x ^= x >> 7; x ^= x << 17;
                 let path = root.join("ingest").join(format!("g{g}i{i}.sst"));
                 let mut b = SstBuilder::new(SstOptions::default(), &path).unwrap();
-                let mut ks: Vec<u64> = vec![x % nkeys, (x >> 9) % nkeys];
+                // each ingester owns the keys congruent to its number (ranges interleave, keys do not collide), so
+                // that per key the timestamps grow in the order the ingests complete
+                let mut ks: Vec<u64> = vec![(x % nkeys) * ingesters + g, ((x >> 9) % nkeys) * ingesters + g];
                 ks.sort();
                 ks.dedup();
+                let mut mine = vec![];
                 for k in ks {
                     let t = ts.fetch_add(1, Ordering::SeqCst);
                     b.put(&key(0, k), t, &val(t, pad)).unwrap();
+                    mine.push((k, t));
                 }
                 b.seal().unwrap();
                 let n = seq.fetch_add(1, Ordering::SeqCst);
@@ -223,8 +228,12 @@ pub fn ingest_stress(args: &[String]) -> ! {
                 let r = tree.ingest(&path);
                 let n = seq.fetch_add(1, Ordering::SeqCst);
                 log.lock().unwrap().push(json!({"n": n, "ev": "ie", "g": g + 1, "i": i + 1, "ok": r.is_ok(),
-                                                 "err": r.err().map(|e| format!("{e:?}").chars().take(200).collect::<String>()).unwrap_or_default()}));
+                                                 "err": r.as_ref().err().map(|e| format!("{e:?}").chars().take(200).collect::<String>()).unwrap_or_default()}));
                 let _ = std::fs::remove_file(&path);
+                if r.is_ok() {
+                    let mut w = written.lock().unwrap();
+                    for (k, t) in mine { let e = w.entry(k).or_insert(0); if *e < t { *e = t; } }
+                }
             }
             finished.fetch_add(1, Ordering::SeqCst);
         });
@@ -247,8 +256,46 @@ pub fn ingest_stress(args: &[String]) -> ! {
         writeln!(f, "{e}").unwrap();
     }
     let errs = errors.lock().unwrap().clone();
+    // audit (the compaction threads are still running): every ingested key reads back its newest value
+    // and the on-disk history verifies
+    let (mut missing, mut wrong, mut verdict) = (0u64, 0u64, String::from("skipped"));
+    if !hung {
+        for (k, t) in written.lock().unwrap().iter() {
+            let mut tomb = false;
+            match tree.load(&key(0, *k), &mut tomb) {
+                Ok(Some(v)) if v == val(*t, pad) => {}
+                Ok(Some(_)) => wrong += 1,
+                _ => missing += 1,
+            }
+        }
+        // the verifier is an offline tool: wait until the compaction threads have drained (no compaction
+        // finished for a while), and retry if one slipped in between
+        let mut attempts: Vec<String> = vec![];
+        for _attempt in 0..6 {
+            let mut last = lsmtk::verif::compactions_performed();
+            let mut quiet = std::time::Instant::now();
+            while quiet.elapsed().as_millis() < 400 {
+                std::thread::sleep(std::time::Duration::from_millis(20));
+                let now = lsmtk::verif::compactions_performed();
+                if now != last { last = now; quiet = std::time::Instant::now(); }
+            }
+            let refs: Vec<&str> = a.iter().map(|s| s.as_str()).collect();
+            let (o, _) = LsmtkOptions::from_arguments_relaxed("vh", &refs);
+            verdict = match lsmtk::LsmVerifier::open(o) {
+                Err(e) => format!("open: {e:?}").chars().take(200).collect(),
+                Ok(mut v) => match v.verify() {
+                    Ok(()) => "ok".into(),
+                    Err(e) if lsmtk::error_code(&e) == Some(lsmtk::CODE_BACKOFF) => "backoff".into(),
+                    Err(e) => format!("{e:?}").chars().take(900).collect(),
+                },
+            };
+            attempts.push(verdict.chars().take(60).collect());
+            if std::env::var("VH_VERIFY_TRACE").is_ok() { eprintln!("verify attempt: {verdict}"); }
+            if verdict == "ok" && lsmtk::verif::compactions_performed() == last { break; }
+        }
+    }
     writeln!(f, "{}", json!({"n": seq.load(Ordering::SeqCst), "ev": if hung { "hang" } else { "end" }, "finished": finished.load(Ordering::SeqCst),
-                              "l0_files": l0, "thread_errors": errs})).unwrap();
+                              "l0_files": l0, "thread_errors": errs, "missing": missing, "wrong": wrong, "verify": verdict})).unwrap();
     f.flush().unwrap();
     println!("RESULT {}", json!({"evaluations": 1, "steps": events.len(), "distinct": 1, "known": {}, "violations": [], "samples": [], "extra": {"hung": hung}}));
     std::process::exit(0);
